@@ -303,15 +303,20 @@ def _check_directory_structure_validity(paths):
         If a path is repeated as both a leaf and a node in the directory structure.
 
     """
-    check = set()
+    paths = list(paths)
+    nodes = set()
+    if len(paths) > 1:
+        # The root of the path structure is a node whenever there is more than one path.
+        nodes.update(("", os.path.curdir))
     for dst in paths:
-        if dst in check:
+        tokens = dst.split(os.path.sep)
+        for i in range(1, len(tokens)):
+            nodes.add(os.path.sep.join(tokens[:i]))
+    for dst in paths:
+        if dst in nodes:
             raise RuntimeError(
                 f"The path '{dst}' is both a leaf and node in the path structure."
             )
-        tokens = dst.split(os.path.sep)
-        for i in range(1, len(tokens)):
-            check.add(os.path.sep.join(tokens[:i]))
 
 
 def _export_jobs(jobs, path, copytree):
@@ -349,8 +354,21 @@ def _export_jobs(jobs, path, copytree):
     # Determine export path for each job.
     paths = {job.path: path_function(job) for job in jobs}
 
+    # Check that all paths stay beneath the target and are unique, irrespective
+    # of how they were generated and spelled.
+    paths = {src: os.path.normpath(dst) if dst else dst for src, dst in paths.items()}
+    normalized_paths = list(paths.values())
+    for dst in normalized_paths:
+        if os.path.isabs(dst) or dst.split(os.path.sep)[0] == os.path.pardir:
+            raise RuntimeError(f"The path '{dst}' is not located within the target.")
+    if len(set(normalized_paths)) != len(normalized_paths):
+        raise RuntimeError(
+            "The path specification would result in duplicate paths. The easiest "
+            "way to fix this is to use the job id within the path specification."
+        )
+
     # Check leaf/node consistency
-    _check_directory_structure_validity(paths.values())
+    _check_directory_structure_validity(normalized_paths)
 
     for src, dst in paths.items():
         copytree(src, dst)
